@@ -247,9 +247,37 @@ func (p *Program) CallGraph() *callgraph.Graph {
 }
 
 // Callees resolves the possible callees of a call instruction: the static callee, or VTA edges.
+// Unwrap maps a synthetic bound-method wrapper, thunk or promotion wrapper to the declared method it forwards to,
+// so that passing x.method as a callback is analysed like passing a closure that calls it.
+func Unwrap(fn *ssa.Function) *ssa.Function {
+	if fn == nil || fn.Synthetic == "" || fn.Blocks == nil {
+		return fn
+	}
+	if !strings.HasPrefix(fn.Synthetic, "bound method wrapper") && !strings.HasPrefix(fn.Synthetic, "thunk for") && !strings.HasPrefix(fn.Synthetic, "wrapper for") {
+		return fn
+	}
+	var target *ssa.Function
+	for _, b := range fn.Blocks {
+		for _, in := range b.Instrs {
+			if ci, ok := in.(ssa.CallInstruction); ok {
+				if cal := ci.Common().StaticCallee(); cal != nil {
+					if target != nil && target != cal {
+						return fn
+					}
+					target = cal
+				}
+			}
+		}
+	}
+	if target == nil {
+		return fn
+	}
+	return Unwrap(target)
+}
+
 func (p *Program) Callees(site ssa.CallInstruction) []*ssa.Function {
 	if f := site.Common().StaticCallee(); f != nil {
-		return []*ssa.Function{f}
+		return []*ssa.Function{Unwrap(f)}
 	}
 	n := p.CallGraph().Nodes[site.Parent()]
 	if n == nil {
@@ -258,9 +286,9 @@ func (p *Program) Callees(site ssa.CallInstruction) []*ssa.Function {
 	var out []*ssa.Function
 	seen := map[*ssa.Function]bool{}
 	for _, e := range n.Out {
-		if e.Site == site && !seen[e.Callee.Func] {
-			seen[e.Callee.Func] = true
-			out = append(out, e.Callee.Func)
+		if cal := Unwrap(e.Callee.Func); e.Site == site && !seen[cal] {
+			seen[cal] = true
+			out = append(out, cal)
 		}
 	}
 	sort.Slice(out, func(i, j int) bool { return out[i].String() < out[j].String() })
